@@ -64,7 +64,7 @@ fn report_failure(args: &Args, rep: &mut Report, ast: &OpeningHoursExpression, h
 }
 
 pub fn run(args: &Args, rep: &mut Report) {
-    let n = args.cases(80_000, 800_000);
+    let n = args.cases(480_000, 4_000_000);
     for k in 0..n {
         let cfg = canonical_cfg(args.thorough(), k);
         let case = gen_case(args, k, &cfg, rep);
